@@ -98,5 +98,15 @@ fn main() {
         let r = std::panic::catch_unwind(std::panic::AssertUnwindSafe(|| check(&mut g, n, &desc)));
         if r.is_err() { fail("an iteration method panicked", &desc); }
     }
-    println!("OK c14_seq: 4001 graphs, all sequential iteration methods, try_* failing at every position");
+    // one large graph: 300 functions, sparse random edges, a few access declarations
+    {
+        let n = 300;
+        let accs: Vec<Acc> = (0..n).map(|i| Acc { id: i, reads: if i % 7 == 0 { vec![(i % 5) as u8] } else { vec![] }, writes: if i % 11 == 0 { vec![(i % 5) as u8] } else { vec![] } }).collect();
+        let mut b = FnGraphBuilder::new();
+        let ids: Vec<FnId> = accs.iter().cloned().map(|a| b.add_fn(a)).collect();
+        for i in 0..n { for _ in 0..2 { let j = i + 1 + rng.below(9) as usize; if j < n { b.add_logic_edge(ids[i], ids[j]).unwrap(); } } }
+        let mut g = b.build();
+        check(&mut g, n, "large graph: 300 functions, sparse random edges");
+    }
+    println!("OK c14_seq: 4002 graphs, all sequential iteration methods, try_* failing at every position");
 }
